@@ -190,12 +190,27 @@ def run_shard(pid, tier, seed, shard, nshards, out_path, examples=None):
     shrink_cap = 45 if tier == "quick" else 240
     err = None
 
+    survey = os.environ.get("VERIF_SURVEY") == "1"
+    buckets = {}
+
+    cur_path = out_path + ".cur"
+
     def one(case):
+        with open(cur_path, "w") as fh:  # so that the parent knows the culprit if this process is killed by a crash
+            fh.write(canon(case))
         res = exec_case(mod, case)
         unknown, matched = split_known(mod, case, res["viol"], findings)
         for k in matched:
             st.known[k] = st.known.get(k, 0) + 1
         st.note(case, res)
+        if survey:
+            for kind, detail in unknown:
+                b = buckets.setdefault(kind, [0, None, None, 10 ** 9])
+                b[0] += 1
+                size = len(canon(case))
+                if size < b[3]:
+                    b[1], b[2], b[3] = json.loads(canon(case)), detail, size
+            return []
         return unknown
 
     # (1) exhaustive part, sharded round-robin
@@ -252,7 +267,7 @@ def run_shard(pid, tier, seed, shard, nshards, out_path, examples=None):
 
     out = {"shard": shard, "evals": st.evals, "labels": st.labels, "nontrivial": sorted(st.nontrivial),
            "samples": st.samples, "known": st.known, "budget_hit": st.budget_hit, "error": err,
-           "exhaustive_done": st.exhaustive_done, "wall_s": time.time() - t_start,
+           "exhaustive_done": st.exhaustive_done, "wall_s": time.time() - t_start, "buckets": buckets,
            "fail": None if st.best_fail is None else {"case": st.best_fail[1], "viol": st.best_fail[2]}}
     with open(out_path, "w") as fh:
         json.dump(out, fh, default=_json_default)
@@ -281,6 +296,7 @@ def worker_env(mod):
     env["OPENBLAS_NUM_THREADS"] = "1"
     env["MKL_NUM_THREADS"] = "1"
     env["PYTHONHASHSEED"] = "0"
+    env["MALLOC_CHECK_"] = "3"  # glibc: abort on detected heap corruption instead of carrying on
     return env
 
 
@@ -298,9 +314,10 @@ def run_in_child(pid, case, timeout=600):
                                text=True)
         except subprocess.TimeoutExpired:
             raise HarnessError("inconclusive: case did not finish within %ds" % timeout)
+        if p.returncode < 0:
+            # also when the result file was written: heap corruption typically only kills the interpreter at exit
+            return [("crash/signal%d" % (-p.returncode), p.stderr[-500:])], ["crashed"]
         if not os.path.exists(op):
-            if p.returncode < 0:
-                return [("crash/signal%d" % (-p.returncode), p.stderr[-500:])], ["crashed"]
             raise HarnessError("child failed (rc=%s): %s" % (p.returncode, p.stderr[-3000:]))
         r = json.load(open(op))
         if r.get("error"):
@@ -317,6 +334,7 @@ def main(argv=None):
     ap.add_argument("--examples", type=int)
     ap.add_argument("--shards", type=int)
     ap.add_argument("--no-evidence", action="store_true")
+    ap.add_argument("--survey", action="store_true", help="do not stop at the first violation: bucket all violations by kind")
     ap.add_argument("--_shard", type=int)
     ap.add_argument("--_nshards", type=int)
     ap.add_argument("--_out")
@@ -414,7 +432,8 @@ def _search(a, pid, mod, findings, binfo, t0):
     results = []
     if not violations:
         env = worker_env(mod)
-        env["VERIF_EXAMPLES"] = str(conf.get("examples", 0))
+        if a.survey:
+            env["VERIF_SURVEY"] = "1"
         with tempfile.TemporaryDirectory(prefix="vf-") as td:
             procs = []
             for s in range(nshards):
@@ -434,11 +453,34 @@ def _search(a, pid, mod, findings, binfo, t0):
                         q.kill()
                     raise HarnessError("inconclusive: shard %d silent beyond the hard limit (worker hung)" % s)
                 if not os.path.exists(op):
+                    if p.returncode is not None and p.returncode < 0 and os.path.exists(op + ".cur"):
+                        # the code under test killed the worker (segfault / abort): the case being run is the suspect
+                        case = json.load(open(op + ".cur"))
+                        results.append({"shard": s, "evals": 0, "labels": {"worker-crashed": 1}, "nontrivial": [],
+                                        "samples": [], "known": {}, "budget_hit": False, "error": None,
+                                        "exhaustive_done": False, "wall_s": 0, "buckets": {
+                                            "crash/signal%d" % -p.returncode: [1, case, (se or "")[-300:], len(canon(case))]},
+                                        "fail": {"case": case, "viol": [("crash/signal%d" % -p.returncode, (se or "")[-300:])]}})
+                        continue
                     raise HarnessError("shard %d died rc=%s: %s" % (s, p.returncode, (se or "")[-3000:]))
                 results.append(json.load(open(op)))
         for r in results:
             if r["error"]:
                 raise HarnessError(r["error"])
+        if a.survey:
+            tot = {}
+            for r in results:
+                for k, (n, case, detail, size) in r["buckets"].items():
+                    t = tot.setdefault(k, [0, None, None, 10 ** 9])
+                    t[0] += n
+                    if size < t[3]:
+                        t[1], t[2], t[3] = case, detail, size
+            print("SURVEY %s: %d violation kinds over %d evaluations" % (pid, len(tot), sum(r["evals"] for r in results)))
+            os.makedirs(os.path.join(VERIF, "replays", pid), exist_ok=True)
+            for k, (n, case, detail, size) in sorted(tot.items(), key=lambda kv: -kv[1][0]):
+                rp = write_replay(pid, case, [(k, detail)])
+                print("  %6d  %s\n          %s\n          smallest: %s  [%s]" % (n, k, detail[:300], canon(case)[:400], rp))
+            return 0
         fails = [r["fail"] for r in results if r["fail"]]
         if fails:
             fails.sort(key=lambda f: len(canon(f["case"])))
